@@ -2086,6 +2086,9 @@ func (a *AvailabilityAssignments) Decode(d *Decoder) error {
 			return err
 		}
 
+		if pointerFlag > 1 {
+			return fmt.Errorf("invalid AvailabilityAssignment option discriminator %d", pointerFlag)
+		}
 		pointerIsNil := pointerFlag == 0
 		if pointerIsNil {
 			cLog(Yellow, "AvailabilityAssignmentsItem is nil")
@@ -2131,6 +2134,9 @@ func (m *Mmr) Decode(d *Decoder) error {
 		pointerFlag, err := d.ReadPointerFlag()
 		if err != nil {
 			return err
+		}
+		if pointerFlag > 1 {
+			return fmt.Errorf("invalid MmrPeak option discriminator %d", pointerFlag)
 		}
 		pointerIsNil := pointerFlag == 0
 		if pointerIsNil {
